@@ -30,6 +30,20 @@ CHECKS['C02'] = dict(
     technique="TLA+ spec (Mahalanobis/ObsMetric) + TLC exhaustive model + TLC trace validation of recorded behaviours",
     ref="DESIGN.md section 5 C02")
 
+CHECKS['C03'] = dict(
+    text=("TLC enumerates the documented option product of the 17 estimators as states (MC_Options over Options.tla: "
+          "init/prior/basis x embedding_type x k x n_components x n_features x n_classes, with the documented lda "
+          "restriction and the auto-selection rule as invariants); every enumerated configuration is fitted on the real "
+          "code on generated well-formed data, then the same object is refitted on data of another dimensionality; TLC "
+          "evaluates the fit postcondition ObsFit!FitFails on each recorded Fit event (returns self, real finite 2-D "
+          "float components_, expected shape incl. the SCML low-rank rule, n_features_in_ of the last fit, transform "
+          "shape, M symmetric PSD in exact arithmetic)."),
+    note=("The configuration space is exhausted for n_features 2..4 (quick) / 2..8 (thorough); the training sets are "
+          "sampled (1 resp. 3 per configuration). SDML's balance_param is chosen by a norm bound so that the "
+          "graphical-lasso input is positive definite, as the property's quantifier requires."),
+    technique="TLA+ option-space model enumerated by TLC -> real fits (spec->code) -> TLC trace validation of the fit postcondition",
+    ref="DESIGN.md section 5 C03")
+
 NOT_YET = {}
 
 def main():
